@@ -190,7 +190,7 @@ def check(ctx: Ctx) -> list[RuleResult]:
     eff = repo.func(f"{MOD}.ProtocolContext.set_state.effect_state")
     cfg7 = ctx.plain_cfg(eff)
     arm = [x for x in cfg7.nodes if x.kind == "stmt" and isinstance(x.ast, ast.Assign) and norm(x.ast.targets[0]) == "self._expiry_timer" and "create_task" in norm(x.ast.value)]
-    tt = [x for x in cfg7.nodes if x.kind == "test" and norm(x.ast) == "timed_out"]
+    tt = [x for x in cfg7.nodes if x.kind == "test" and any(isinstance(y, ast.Name) and y.id == "timed_out" for y in ast.walk(x.ast))]
     if not arm or not tt:
         raise AnalysisError("effect_state: timer arming / timed_out test not found")
     r7.instances += 1
@@ -207,6 +207,33 @@ def check(ctx: Ctx) -> list[RuleResult]:
     if ok7:
         r7.ok({"effect_state": "the expiry timer can be armed after a first send and after a retransmission"})
     out.append(r7)
+
+    # ---- R8 ---------------------------------------------------------------------------
+    # the expiry timer is what gets a sending state out of waiting when nothing arrives: once its sleep is over, every way through
+    # the callback changes the state (retransmit or give up). A way out that leaves the state alone - "somebody else will reset the
+    # machine" - strands the sender in WantEcho/WantRply with no timer when that somebody never comes (the awaiting task was
+    # cancelled from outside, not by send_cmd's own timeout)
+    r8 = RuleResult("R8", "an expired wait always changes the state", "in expire_state_on_timeout every normal path from the end of the sleep to the exit passes set_state()", min_instances=1)
+    exp8 = repo.func(f"{MOD}.ProtocolContext.set_state.expire_state_on_timeout")
+    cfg8 = ctx.plain_cfg(exp8)
+    sleeps = [x for x in cfg8.nodes if x.ast is not None and x.kind == "stmt" and any(isinstance(c, ast.Await) for c in ast.walk(x.ast)) and "sleep" in norm(x.ast)]
+    if not sleeps:
+        raise AnalysisError("expire_state_on_timeout: the timed wait was not found")
+    r8.instances += 1
+    r8.nontrivial += 1
+
+    def _changes_state(x) -> bool:
+        return x.ast is not None and any(isinstance(c, ast.Call) and isinstance(c.func, ast.Attribute) and c.func.attr == "set_state" for c in ast.walk(x.ast))
+
+    leaks8 = cfg8.exits_reachable_without(sleeps[0].id, _changes_state, skip_start_exc=True, edge_ok=lambda n_, lab: not lab.startswith("exc") and lab != "cancel")
+    leaks8 = [lk for lk in leaks8 if lk[0].kind != "raise_exit"]
+    if leaks8:
+        ex8, path8, _labs8 = leaks8[0]
+        last = next((p8 for p8 in reversed(path8) if p8.ast is not None and isinstance(p8.ast, ast.Return)), None) or (path8[-1] if path8 else None)
+        r8.fail(f"{exp8.short}:expiry-without-state-change", exp8.loc(last.ast if last is not None and last.ast is not None else None), "after its sleep the expiry callback can return without set_state(): the sender stays in WantEcho/WantRply with no timer running - if the awaiting task was cancelled from outside (not by send_cmd's own timeout) nothing ever moves it again, and every later command queues behind it", [f"path: {' > '.join(str(p8.line) for p8 in path8[:10])}"])
+    else:
+        r8.ok({"expire_state_on_timeout": "every normal path after the sleep passes set_state()"})
+    out.append(r8)
 
     borrow(ctx, out, "c07", ["R4"], "the future, command and QoS of the in-flight entry are only (re)bound together: is_sending's invariant")
     borrow(ctx, out, "c08", ["R1", "R2", "R4", "R5"], "retry gate, timer cancellation, single dequeue gate and orderable queue entries keep the FSM's self-checks from tripping")
